@@ -66,13 +66,21 @@ SAN_FLAGS = {
 LIB_DEFS = ["-DNDEBUG", "-DREPROC_MULTITHREADED", "-fno-builtin", "-U_FORTIFY_SOURCE", "-std=gnu99", "-w"]
 
 
-def build_driver(flavor="plain", repo=None, extra_harness=(), name="vdrv", defs=()):
+def build_driver_cxx(flavor="plain", repo=None):
+    """The script driver with the C++ shim: library C sources + reproc++ from the working tree, linked with g++ over the seam."""
+    repo = repo or REPO
+    cxx_srcs = [os.path.join(repo, "reproc++/src/reproc.cpp"), os.path.join(HARNESS, "cxx/shim.cpp")]
+    hdrs = glob.glob(os.path.join(repo, "reproc++/include/reproc++/*.hpp")) + glob.glob(os.path.join(repo, "reproc++/include/reproc++/detail/*.hpp"))
+    return build_driver(flavor, repo, extra_harness=hdrs, name="vdrvxx", defs=("-DWITH_CXX",), cxx=cxx_srcs)
+
+
+def build_driver(flavor="plain", repo=None, extra_harness=(), name="vdrv", defs=(), cxx=()):
     """Compile the library sources from the working tree + simk + driver, link with --wrap.
     Returns the path of the binary. Cached by content hash."""
     repo = repo or REPO
     srcs = lib_sources(repo)
     hdrs = glob.glob(os.path.join(repo, "reproc/src/*.h")) + glob.glob(os.path.join(repo, "reproc/include/reproc/*.h"))
-    hsrc = [os.path.join(HARNESS, f) for f in ("simk.c", "simk.h", "json.c", "json.h", "driver.c", "wrap.txt")] + list(extra_harness)
+    hsrc = [os.path.join(HARNESS, f) for f in ("simk.c", "simk.h", "json.c", "json.h", "driver.c", "wrap.txt")] + list(extra_harness) + list(cxx)
     key = tree_hash(srcs + hdrs + hsrc, flavor + name + " ".join(defs))
     d = os.path.join(CACHE, key)
     exe = os.path.join(d, name)
@@ -93,6 +101,10 @@ def build_driver(flavor="plain", repo=None, extra_harness=(), name="vdrv", defs=
         o = os.path.join(tmp, "h_" + os.path.basename(s)[:-2] + ".o")
         objs.append(o)
         procs.append((s, subprocess.Popen(["gcc", "-c"] + flags + ["-std=gnu11", "-Wall", "-Wno-unused-function"] + list(defs) + inc + [s, "-o", o], stderr=subprocess.PIPE)))
+    for s in cxx:
+        o = os.path.join(tmp, "x_" + os.path.basename(s)[:-4] + ".o")
+        objs.append(o)
+        procs.append((s, subprocess.Popen(["g++", "-c"] + flags + ["-std=c++11", "-w"] + inc + ["-I" + os.path.join(repo, "reproc++/include"), s, "-o", o], stderr=subprocess.PIPE)))
     for s, p in procs:
         _, err = p.communicate()
         if p.returncode != 0:
@@ -109,7 +121,7 @@ def build_driver(flavor="plain", repo=None, extra_harness=(), name="vdrv", defs=
         shutil.rmtree(tmp, ignore_errors=True)
         raise Infra("library calls functions the seam does not cover: %s" % unknown)
     wl = ["-Wl,--wrap=" + s for s in wrap_syms()]
-    r = subprocess.run(["gcc"] + flags + objs + wl + ["-lpthread", "-o", os.path.join(tmp, name)], capture_output=True, text=True)
+    r = subprocess.run(["g++" if cxx else "gcc"] + flags + objs + wl + ["-lpthread", "-o", os.path.join(tmp, name)], capture_output=True, text=True)
     if r.returncode != 0:
         shutil.rmtree(tmp, ignore_errors=True)
         raise Infra("link failed:\n" + r.stderr[-3000:])
